@@ -310,4 +310,16 @@ def load_doc_tables(tabs):
             if key not in seen:
                 rows.append(row)        # documented event that disappeared from the code
         tab["table"] = rows
+    # ... and the documented tracking modes (Spec/TrackModes.lean) override the regenerated ones
+    tsrc = open(os.path.join(vcommon.LEAN, "OvniModel", "Spec", "TrackModes.lean")).read()
+    for m in re.finditer(r"\((\d+), \[([\d, ]*)\], \[([\d, ]*)\]\)", tsrc):
+        mc = int(m.group(1))
+        th = [int(x) for x in m.group(2).split(",") if x.strip()]
+        cp = [int(x) for x in m.group(3).split(",") if x.strip()]
+        for name, tab in out.items():
+            if isinstance(tab, dict) and tab.get("char") == mc:
+                if len(th) == len(tab.get("thTrack", [])):
+                    tab["thTrack"] = th
+                if len(cp) == len(tab.get("cpuTrack", [])):
+                    tab["cpuTrack"] = cp
     return out
